@@ -34,10 +34,7 @@ def report(c, res, deaths, items, fam="desc"):
             key = "%s:%s" % (case.get("inp", {}).get("kind", "file"), re.sub(r"[0-9]+", "#", first)[:60])
             seen[key] = seen.get(key, 0) + 1
             if seen[key] <= 2:
-                r2, d2 = c.run_worker(fam, [(sc, items[sc])], parallel=1)
-                e2 = (r2.get(sc) or [{}])[0]
-                if sc not in d2 and e2.get("agree", True) and e2.get("alloc", 0) <= ALLOC_LIMIT + 64 * e2.get("len", 0):
-                    raise vf.FrameworkError("disagreement not reproduced")
+                c.reproduce(fam, sc, lambda evs: any((not e.get("agree", True)) or e.get("alloc", 0) > ALLOC_LIMIT + 64 * e.get("len", 0) for e in evs))
             c.report(key, first, dict({"case": case, "event": ev}, **c.rp(fam, items[sc])))
     for sc, d in deaths.items():
         case = json.loads(items[sc])
